@@ -139,6 +139,16 @@ func otherValue(sp *spec) *Node {
 	return Null()
 }
 
+// null is what the library itself writes for a nil slice / map / interface value;
+// for strings, ints and structs "null = zero value" is a documented reading (no demand)
+func nullVerdict(kind string) verdict {
+	switch kind {
+	case "slice", "map", "any":
+		return vAccept
+	}
+	return vNone
+}
+
 type walker struct {
 	out  []corruption
 	part string
@@ -202,13 +212,11 @@ func (w *walker) walkStruct(root *Node, p path, sp *spec, inPayload, top bool) {
 		i, key, f := i, m.Key, *fs
 		where := fmt.Sprintf("%s.%s", lvl, key)
 		// drop
-		dv := vAccept
+		dv := vNone // below the top level a missing field is read as its zero value (documented reading)
 		if top && !f.omit {
 			dv = vRefuse // a missing top-level field
-		} else if top && f.omit {
-			dv = vAccept
-		} else if !inPayload {
-			dv = vNone
+		} else if inPayload && f.omit {
+			dv = vAccept // the library itself omits it when empty
 		}
 		w.addP("drop@"+lvl, "drop "+where, dv, func(r *Node) {
 			o := at(r, p)
@@ -262,7 +270,7 @@ func (w *walker) walkStruct(root *Node, p path, sp *spec, inPayload, top bool) {
 			w.addP("retype-any@"+lvl, "retype "+where, vAccept, func(r *Node) { at(r, p).Obj[i].Val = Num("7") })
 		}
 		// nullify
-		nv := vAccept
+		nv := nullVerdict(f.sp.kind)
 		if top && key == "_type" {
 			nv = vRefuse // no type marker
 		}
@@ -319,10 +327,11 @@ func (w *walker) walkValue(root *Node, p path, sp *spec, inPayload bool) {
 		for i := range n.Arr {
 			i := i
 			v := vAccept
+			nv := nullVerdict(sp.elem.kind)
 			if !inPayload {
-				v = vNone
+				v, nv = vNone, vNone
 			}
-			w.addP("nullelem@"+lvl, "nullify an array element", v, func(r *Node) { at(r, p).Arr[i] = Null() })
+			w.addP("nullelem@"+lvl, "nullify an array element", nv, func(r *Node) { at(r, p).Arr[i] = Null() })
 			if wvs := wrongValues(sp.elem.kind); len(wvs) > 0 {
 				for _, wv := range wvs[:2] {
 					wv := wv
@@ -351,7 +360,7 @@ func (w *walker) walkValue(root *Node, p path, sp *spec, inPayload bool) {
 				o := at(r, p)
 				o.Obj = append(o.Obj, Member{key, otherValue(sp.elem)})
 			})
-			w.addP("nullentry@"+lvl, "nullify a map value", vAccept, func(r *Node) { at(r, p).Obj[i].Val = Null() })
+			w.addP("nullentry@"+lvl, "nullify a map value", nullVerdict(sp.elem.kind), func(r *Node) { at(r, p).Obj[i].Val = Null() })
 			if wvs := wrongValues(sp.elem.kind); len(wvs) > 0 {
 				for _, wv := range wvs[:2] {
 					wv := wv
@@ -360,7 +369,7 @@ func (w *walker) walkValue(root *Node, p path, sp *spec, inPayload bool) {
 			}
 			w.walkValue(root, ext(p, i), sp.elem, inPayload)
 		}
-		w.addP("addentry@"+lvl, "add a map entry with a null value", vAccept, func(r *Node) {
+		w.addP("addentry@"+lvl, "add a map entry with a null value", nullVerdict(sp.elem.kind), func(r *Node) {
 			o := at(r, p)
 			o.Obj = append(o.Obj, Member{"zz_new", Null()})
 		})
